@@ -469,3 +469,55 @@ def rule_unreg_all(ctx, R):
                 R.finding(b.fn, "queue-removal:%s:first-entry-only" % op,
                           "%s takes the client out of a key's queue with VecDeque::%s (line %d), which removes one entry; a client that named the key several times in one BLPOP keeps a stale registration" % (nm, op, b.bb_line(i)), b.loc(i))
     R.floor("queue_removals_by_connection_id", n)
+
+
+def rule_timeout_scan(ctx, R):
+    """`receives nil no earlier than its timeout`, and does receive it: the timeout pass looks at
+    every registry on every call.  It may return without looking only under a cached-deadline
+    test, and then every write of that cache must be derived from the deadlines of the clients
+    that are (still) blocked: a cache that is reset after a pass, instead of recomputed, forgets the
+    later deadlines and those clients are never answered"""
+    b = ctx.prog.need(BM + "process_timeouts")
+    scans = {i for i, t in b.calls() if "get_expired_clients" in callee(t) or (ctx.cg.reach([callee(t)] + list(t.get("clos") or [])) & {f for f in ctx.prog.bodies if f.endswith("::get_expired_clients")})}
+    R.floor("registry_scans_in_timeout_pass", len(scans))
+    heads = {h for h, body in cfg.loops(b).items() if body & scans}
+    p = cfg.path_avoiding(b, [0], b.exits(), scans | heads)
+    R.inst(b.fn, "timeout-pass", {"returns_without_scanning": p is not None})
+    if p is None:
+        return
+    # cached Instant state of the manager read here
+    adt = ctx.prog.adts.get("network::blocking::BlockingManager")
+    fields = [f[0] for f in (adt["variants"][0]["f"] if adt else []) if "Instant" in f[1]]
+    if not fields:
+        R.finding(b.fn, "timeout-pass:scan-skipped", "process_timeouts can return (line %d) without scanning the registries and without a cached deadline deciding it: blocked clients past their timeout are not answered" % b.bb_line(p[-1]), b.loc(p[-1]))
+        return
+    for f in fields:
+        fq = "network::blocking::BlockingManager." + f
+        bad = None; nst = 0
+        for fn, fb in sorted(ctx.prog.bodies.items()):
+            if not fn.startswith("network::blocking::") or "::tests::" in fn:
+                continue
+            for x, bb in enumerate(fb.bbs):
+                if bb.get("cleanup"):
+                    continue
+                for st in bb["s"]:
+                    if st["k"] != "=" or "*" not in st["l"]["p"]:
+                        continue
+                    P = prov.origins(fb, st["l"]["l"])
+                    if fq not in P.fields:
+                        continue
+                    if fn.endswith("::new") or fn.endswith("::default"):
+                        continue
+                    nst += 1
+                    r = st["r"]
+                    V = prov.operand_origins(fb, r["o"], deep=True) if r["k"] == "use" and not op_is_const(r["o"]) else None
+                    derived = V is not None and (bool(V.params() - {1}) or any("deadline" in x_.lower() or "timeout" in x_.lower() for x_ in V.fields) or V.has_call(r"Iterator>::(min|min_by|min_by_key|fold)|::min$"))
+                    if (r["k"] == "agg" and r["a"].endswith("Option::None")) or (V is not None and V.roots and all(rt[0] == "const" or (rt[0] == "agg" and rt[1].endswith("Option::None")) for rt in V.roots)):
+                        derived = False
+                    if not derived and bad is None:
+                        bad = (fn, fb, x)
+        R.inst(b.fn, "deadline-cache:" + f, {"field": f, "stores": nst, "all_derived_from_blocked_clients_deadlines": bad is None})
+        if bad:
+            fn, fb, x = bad
+            R.finding(fn, "deadline-cache:%s:not-recomputed" % f,
+                      "%s writes the cached deadline `%s` (line %d) with a value that is not derived from the deadlines of the blocked clients (a reset): process_timeouts skips its scan while the cache says nothing is due, so every client whose deadline was later than the one just served is never timed out" % (fn.split("::")[-1], f, fb.bb_line(x)), fb.loc(x))
